@@ -312,6 +312,18 @@ theorem C11_writer_failstop (ops : List WOp) (hops : ∀ op ∈ ops, op.Bounded)
   rw [hinv.decode_out] at this
   exact this
 
+/-- … in particular for the frames `mux.write` itself cuts its buffers into (any maximum payload
+    `0 < mp < 2^32`, any connection ids below 2^32, any buffers, any failure points). -/
+theorem C11_writer_failstop_chunked (mp : Nat) (hmp : 0 < mp) (hmp32 : mp < 4294967296)
+    (ws : List (Nat × Bytes × Option (Nat × CallFail))) (hid : ∀ w ∈ ws, w.1 < 4294967296) (k : Nat) :
+    let ops := ws.map fun w => WOp.ofWrite mp w.1 w.2.1 w.2.2
+    (decode ((wrun true ops).out.take k)).1 <+: (wrun true ops).whole :=
+  (C11_writer_failstop _ (by
+    intro op hop
+    simp only [List.mem_map] at hop
+    obtain ⟨w, hw, rfl⟩ := hop
+    exact WOp.ofWrite_bounded mp w.1 w.2.1 w.2.2 hmp hmp32 (hid w hw))).2.1 k
+
 /-- End to end under WRITE failures and truncation together: the sender's `conn.Write`s fail
     wherever and however the trunk makes them fail, the trunk is additionally cut at any byte `k`,
     and the receiving end runs in any way on the frames that come out of what got through: what a
